@@ -79,3 +79,14 @@ Proof.
   intros H. unfold serve_decls. rewrite <- (map_length (droute_for path) ds). apply no_match_404.
   intros r Hr. apply in_map_iff in Hr. destruct Hr as (d & <- & Hd). unfold droute_for. cbn [d_match]. rewrite (H d Hd). reflexivity.
 Qed.
+
+(* the match bit of the dispatch loop is what the regex ENGINE and the converters of the real route compute
+   (C05_match_path_end_to_end): routing is decided from the assembled regular expressions themselves *)
+From ClasticV Require Import Model.RouteRx Model.Backtrack Proofs.ConvertProofs.
+
+Theorem match_bit_is_the_engine s path d : parse_pattern s = Ok (rd_pat d) ->
+  d_match (droute_for path d) =
+  match py_match_path (mmode_of (rd_mode d)) (rd_pat d) path with Some _ => true | None => false end.
+Proof.
+  intros Hp. unfold droute_for. cbn [d_match]. rewrite (py_match_path_is_match_path s _ _ path Hp). reflexivity.
+Qed.
